@@ -929,6 +929,13 @@ class Walker:
         bv = self.ev(e.value, fr, ps)
         return self.attribute(bv, e.attr, e, fr, ps)
 
+    def instance_classes(self, fr: Frame, e: ast.expr) -> list[ClassInfo]:
+        try:
+            t = self.T.expr(fr.fi, e)
+        except Exception:  # noqa: BLE001 - the typer is advisory here
+            return []
+        return [self.repo.classes[m[1]] for m in members(t) if m[0] == "cls" and m[1] in self.repo.classes]
+
     def classes_of(self, fr: Frame, recv: ast.expr) -> list[ClassInfo]:
         try:
             t = self.T.expr(fr.fi, recv)
@@ -1002,10 +1009,14 @@ class Walker:
         fv = self.ev(f, fr, ps)
         if fv.fns:
             return self.call_any(sorted(fv.fns, key=lambda t: t[0].fq), args, kwargs, star, fr, ps, e)
+        cls_paths = [p for p in fv.al if len(p) == 1 and p[0].startswith("cls:")]
+        if cls_paths:
+            return self.construct(cls_paths, args, kwargs, star, fr, ps, e)
+        # an object that is called: its class's __call__
+        dunder = [m for m in (self.repo.lookup_method(ci, "__call__") for ci in self.instance_classes(fr, f)) if m is not None and not m.is_abstract]
+        if dunder:
+            return self.call_any([(m, fv) for m in dunder], args, kwargs, star, fr, ps, e)
         if isinstance(f, ast.Name):
-            cls_paths = [p for p in fv.al if len(p) == 1 and p[0].startswith("cls:")]
-            if cls_paths:
-                return self.construct(cls_paths, args, kwargs, star, fr, ps, e)
             return self.builtin(f.id, e, args, kwargs, star, fr, ps)
         for v in [*args, *kwargs.values()]:
             self.use(v, e, fr, ps)
@@ -1103,6 +1114,12 @@ class Walker:
             if callees:
                 self.notes.append(f"`{norm(e, 60)}` in {fr.fi.qualname}: receiver type unknown, all repo methods named `{meth}` entered")
         callees = [c for c in callees if not c.is_abstract]
+        if not callees and how != "ctor":
+            # an attribute that holds a callable object: its class's __call__
+            dunder = [m for m in (self.repo.lookup_method(ci, "__call__") for ci in self.instance_classes(fr, f)) if m is not None and not m.is_abstract]
+            if dunder:
+                fv = self.attribute(rv, meth, f, fr, ps)
+                return self.call_any([(m, fv) for m in dunder], args, kwargs, star, fr, ps, e)
         if callees and how != "ctor":
             self.follow(rv, f, fr, ps)
             out = []
